@@ -8,7 +8,7 @@ import (
 )
 
 // Upgrade sub-profiles. The v1.2.0 upgrade (its handler and the store migrations it runs) rewrites the state most
-// properties talk about. C16 decides what the upgrade itself promises; on top of that, every twelfth run of C02, C10
+// properties talk about. C16 decides what the upgrade itself promises; on top of that, every twelfth run of C02, C03, C10
 // and C13 is the upgrade world of C16 (a generated store rewritten into the v1.1.0 layout, the real handler run by
 // x/upgrade, crashes in the preparing, the upgrading and the following block, post-upgrade traffic) judged by the
 // part of the verdicts that belongs to that property. C05, C11 and C17 have sub-profiles of their own (see their files).
@@ -18,6 +18,8 @@ type upgradeSub struct {
 }
 
 var upgradeSubs = map[string]upgradeSub{
+	// the books of the distributor still match its main account after the store was migrated
+	"C03": {12, func(v *kernel.Violation) bool { return v.Property == "C03" }},
 	// the migrated schedule is the legacy one (what is emitted afterwards follows it)
 	"C02": {12, func(v *kernel.Violation) bool { return v.Signature == "minter-schedule-changed" }},
 	// nothing the upgrade leaves behind may halt block processing: not the upgrade block, not the blocks after it
